@@ -94,46 +94,12 @@ def parseMapCase (payload : List Sexp) : Option MapCase := do
          prop := prop, masks := atoms (p.field? "masks"), fmasks := atoms (p.field? "fmasks"),
          srcSlots := atoms (slots.bind (·.field? "src")), destSlots := atoms (slots.bind (·.field? "dest")) }
 
-/-- does the generated file type-check, as far as the model can tell -/
-def modelCompiles (inp : Input) : Bool :=
-  let p := plan inp
-  (!toGen inp || (p.toStmts.all (stmtCompiles inp.src inp.dest) &&
-    (match p.destCtor with | some as => as.all (argCompiles inp.src) | none => true))) &&
-  (!fromGen inp || (p.fromStmts.all (stmtCompiles inp.dest inp.src) &&
-    (match p.srcCtor with | some as => as.all (argCompiles inp.dest) | none => true)))
-
-def optV : Option V → Option String
-  | some v => some v.show
-  | none => none
-
-/-- C05 observables: presence of the two methods, and per written leaf where its value came from -/
-def c05Model (inp : Input) : List (String × String) :=
-  if !modelCompiles inp then [("compile", "error")] else
-  [("compile", "ok"), ("to:present", toString (toGen inp)), ("from:present", toString (fromGen inp))]
-    ++ (if toGen inp then
-          let o := execTo inp []
-          match o with
-          | .value _ => (leavesOf inp.dest).map (fun l => ("to:" ++ joinPath l.path, obsLeaf o l))
-          | _ => [("to:panic", "true")]
-        else [])
-    ++ (if fromGen inp then
-          let o := execFrom inp []
-          match o with
-          | .value _ => (leavesOf inp.src).map (fun l => ("from:" ++ joinPath l.path, obsLeaf o l))
-          | _ => [("from:panic", "true")]
-        else [])
-
-def c05Spec (inp : Input) : List (String × String) :=
-  [("compile", "ok"), ("to:present", toString (toGen inp)), ("from:present", toString (fromGen inp))]
-    ++ (if toGen inp then (leavesOf inp.dest).filterMap (fun l => (optV (specTo inp l)).map (fun v => ("to:" ++ joinPath l.path, v))) else [])
-    ++ (if fromGen inp then (leavesOf inp.src).filterMap (fun l => (optV (specFrom inp l)).map (fun v => ("from:" ++ joinPath l.path, v))) else [])
-
 def mapCase (id : String) (payload : List Sexp) : List String :=
   match parseMapCase payload with
   | none => err id "bad-map-case"
   | some c =>
     match c.prop with
-    | "C05" => both id (c05Model c.inp) (c05Spec c.inp) (region05 c.inp)
+    | "C05" => both id (obs05 c.inp) (spec05 c.inp) (region05 c.inp)
     | _ => err id "unknown-prop"
 
 end ShootVerif.Drive
